@@ -591,7 +591,7 @@ class Evaluator:
         if not lines:
             return []
         return vlib.run_parallel(self.exe, lines, nshards=nshards or min(vlib.NCPU, max(1, len(lines) // 4)),
-                                 timeout=600, batch=400, per_case_timeout=120)
+                                 timeout=600, batch=32, per_case_timeout=120)
 
     def run_m(self, lines):
         if not lines or self.mexe is None:
